@@ -7,6 +7,10 @@
 //   dest,<oid>                            destruct(<object oid>)
 //   reload,<oid>                          reload_object(<object oid>)
 //   via,<oid>,<op>                        evaluate((: run_op, <op> :) made by <oid>), then geteuid(that function)
+//   bind,<oid>,load,<path> | bind,<oid>,clone,<newoid>,<path>
+//                                         bind((: find_object, <path>, 1 :) / (: clone_object, <path>, <newoid> :), <oid>): the
+//                                         efun pointer made HERE is re-bound to <oid> (master valid_bind) and then does the
+//                                         load / clone of an ordinary `load` / `clone` op of <oid>; then geteuid(bound function)
 // Virtual objects: a load/clone of a path without a file asks master::compile_object, which (policy) clones a
 // template as `v<n>`; the driver renames that object to the virtual path.
 // Every op prints one result line `r ...`; create() prints `new <oid> <object name> <uid> <euid>`.
@@ -15,6 +19,7 @@
 #define RESERVED ({ "m", "se", "u1a", "u1b", "u1c", "u2a", "u2b", "u2c", "bba", "bbb", "bbc", "roota", "rootb", "rootc", "odda", "oddb", "oddc" })
 
 string oid;
+mixed bound_fp;     // bind(): the bound efun pointer the next load / clone op of this object has to use
 
 string my_oid () { return oid; }
 string us (mixed u) { return stringp (u) ? "s:" + u : "0"; }
@@ -53,6 +58,15 @@ string run_op (string op) {
   r = do_op (op);
   REG->pop_actor ();
   if (this_object ()) REG->snap ();   // after destruct(this_object()) the registry prints the snapshot
+  return r;
+}
+
+// bind(): run one load / clone op here, creating through the efun pointer somebody bound to this object
+string run_bound (string op, mixed f) {
+  string r;
+  bound_fp = f;
+  r = run_op (op);
+  bound_fp = 0;
   return r;
 }
 
@@ -98,11 +112,13 @@ void create (mixed s) {
 
 string do_op (string s) {
   string *w;
-  mixed r, e, fpv;
+  mixed r, e, fpv, bf;
   object o;
   w = explode (s, ",");
   r = 0;
   e = 0;
+  bf = bound_fp;
+  bound_fp = 0;
   switch (w[0]) {
   case "seteuid":
     if (w[1][0..1] == "i:") e = catch (r = seteuid (to_int (w[1][2..])));
@@ -117,7 +133,7 @@ string do_op (string s) {
     o = find_object (w[1]);
     // the harness never lets two live objects share a registry id
     if ((!o || !stringp (o->my_oid ())) && REG->get (bp_oid (w[1]))) { r = "nobj"; break; }
-    e = catch (o = load_object (w[1]));
+    e = catch (o = (bf ? evaluate (bf) : load_object (w[1])));
     if (!e && o) {
       if (!stringp (o->my_oid ())) o->announce ();   // half-made object left by a failed load: initialise late
       r = o->my_oid ();
@@ -126,7 +142,7 @@ string do_op (string s) {
   case "clone":
     if (member_array (w[1], RESERVED) != -1 || REG->get (w[1])) { r = "nobj"; break; }   // reserved or taken id
     if (!find_object (w[2]) && REG->get (bp_oid (w[2]))) { r = "nobj"; break; }
-    e = catch (o = clone_object (w[2], w[1]));
+    e = catch (o = (bf ? evaluate (bf) : clone_object (w[2], w[1])));
     if (!e && o) r = o->my_oid ();
     break;
   case "via":   // via,<oid>,<op...>: evaluate a function pointer made by <oid>; the op runs in the OWNER's context
@@ -138,6 +154,20 @@ string do_op (string s) {
     e = catch (evaluate (fpv));
     REG->leave ();
     if (!e) r = us (geteuid (fpv));      // geteuid(function) = euid of the owner
+    break;
+  case "bind":  // bind,<oid>,load,<path> | bind,<oid>,clone,<newoid>,<path>
+    o = REG->get (w[1]);
+    if (!o || sizeof (w) < 4 || (w[2] != "load" && w[2] != "clone") || (w[2] == "clone" && sizeof (w) < 5)) { r = "nobj"; break; }
+    // (load_object is the efun find_object with its flag preset: an efun POINTER to it would be a plain find_object)
+    if (w[2] == "load") fpv = (: find_object, w[3], 1 :);
+    else fpv = (: clone_object, w[4], w[3] :);
+    e = catch (fpv = bind (fpv, o));          // master valid_bind (this_object(), this_object(), o) unless o is this object
+    if (e) break;
+    REG->snap ();
+    REG->enter ();
+    e = catch (o->run_bound (implode (w[2..], ","), fpv));
+    REG->leave ();
+    if (!e) r = us (geteuid (fpv));          // geteuid(function) = euid of the NEW owner
     break;
   case "dest":
     o = REG->get (w[1]);
